@@ -224,17 +224,24 @@ def block(k, case):
     method, args = case
     names = ["%s%d" % ("abcd"[i], k) for i in range(len(args))]
     lines = ['print "@@%d"' % k]
+    if method == "index_lit":
+        # s[<literal>]: the index is written into the vec_op instruction and parsed there
+        args, names, lit = args[:1], names[:1], args[1][1]
     for n, a in zip(names, args):
         lines.append("%s = %s" % (n, ms_expr(a)))
     for n in names:
         lines.append("print %s" % n)
     lines.append('print "@="')
-    lines.append("print " + call_expr(method, names))
+    if method == "index_lit":
+        lines.append("print %s[%d]" % (names[0], lit))
+    else:
+        lines.append("print " + call_expr(method, names))
     return "\n".join(lines) + "\n"
 
 
 def expected_echo(case):
-    return [canon_typed(typed(a)) for a in case[1]]
+    args = case[1][:1] if case[0] == "index_lit" else case[1]
+    return [canon_typed(typed(a)) for a in args]
 
 
 # ----------------------------------------------------------------------------- running the real implementation
@@ -363,7 +370,7 @@ def run_all(ctx, binary, cases, expect_fail, batch=120):
 # ----------------------------------------------------------------------------- Coq models (extracted)
 
 def run_models(exe, cases):
-    inp = "".join("%s\t%s\n" % (m, "\t".join(enc_val(a) for a in args)) for m, args in cases)
+    inp = "".join("%s\t%s\n" % ("index" if m == "index_lit" else m, "\t".join(enc_val(a) for a in args)) for m, args in cases)
     rc, out, err = core.sh([exe], inp=inp.encode(), timeout=1800)
     if rc != 0:
         raise core.BuildError("builtins model driver crashed rc=%s %s" % (rc, err.decode("utf8", "replace")[-600:]))
@@ -506,7 +513,7 @@ def oracle(method, args):
     if method == "len":
         n = blen(a[0])
         return val(V("int", n)) if n <= I32_MAX else FAIL
-    if method == "index":
+    if method in ("index", "index_lit"):
         s, i = a
         return val(V("str", s[i])) if 0 <= i < len(s) else FAIL
     if method == "substring":
@@ -671,7 +678,7 @@ def exact_power(x, y):
 # ----------------------------------------------------------------------------- generators
 
 STRS = ["", "a", "é", "€", "😀", "ab", "abc", "héllo", "a€b", "日本語", "hello world", "aXbXc", "aaaa", "x😀y",
-        "a\"b\\c", "tab\there", "l1\nl2", " é ", "ÿĀ", "߿ࠀ", "￿\U00010000"]
+        "a\"b\\c", "abcdefghijklmnopqrstuvwxyz0123456789", "tab\there", "l1\nl2", " é ", "ÿĀ", "߿ࠀ", "￿\U00010000"]
 PATS = ["", "a", "l", "é", "€", "😀", "X", "aa", "lo", "lo w", "b", "ab", "bc", "z", "ll", "\\", "\"", "日本", "本"]
 NEWS = ["", "x", "é", "<>"]
 INTS = [I32_MIN, I32_MIN + 1, -65536, -257, -256, -255, -129, -128, -3, -2, -1, 0, 1, 2, 3, 7, 10, 15, 16, 36, 37, 100, 127, 128,
@@ -735,6 +742,9 @@ def gen_boundary():
         nchar = len(s)
         for i in sorted({-1, 0, 1, nchar - 1, nchar, nchar + 1, I32_MIN, I32_MAX} | set(range(0, min(nchar, 12) + 1))):
             out.append(("index", [S(s), I(i)]))
+        for i in range(0, blen(s)):
+            # a literal index below the (static, byte) length compiles; at or above the character count it fails at run time
+            out.append(("index_lit", [S(s), I(i)]))
         for i in sorted({-1, 0, nchar - 1, nchar, 2**31, 2**63, 2**64 - 1, 2**64, 2**64 + 1, 2**64 + nchar - 1 if nchar else 2**65, -2**64, -2**64 + 1, I128_MIN, I128_MAX}):
             out.append(("index", [S(s), B(i)]))
         small = [o for o in offs if -1 <= o <= blen(s) + 1]
@@ -928,6 +938,8 @@ def recv_kind(case):
         return "+".join(a[0] for a in args)
     if m == "index":
         return "str[%s]" % args[1][0]
+    if m == "index_lit":
+        return "str[literal]"
     return args[0][0]
 
 
@@ -963,6 +975,8 @@ def same_demand(a, b):
 
 def describe(case):
     m, args = case
+    if m == "index_lit":
+        return "%s[%d]" % (ms_expr(args[0]), args[1][1])
     names = [ms_expr(a) for a in args]
     return call_expr(m, names)
 
@@ -1034,7 +1048,7 @@ def run(ctx):
     cases = [c for c in boundary + rnd if writable(c)]
     models = run_models(exe, cases)
     if os.environ.get("VERIF_C14_HEAD"):
-        # development aid: compare against the model of the pinned HEAD (before fixes/c14-builtins.diff)
+        # development aid: compare against the model of the pinned HEAD (before the fix: commits a7759b5..1441424, fixes/c14-*.diff)
         models = [(h, h, s if h == i else ("unspec-head",)) for i, h, s in models]
     expect_fail = [m[0][0] in ("err", "panic") for m in models]
     obs, runs = run_all(ctx, binary, cases, expect_fail)
